@@ -833,6 +833,10 @@ func UpdateMinMax(stats *SegStats, value sutils.CValueEnclosure) {
 
 func (ss *SegStats) Merge(other *SegStats) {
 	ss.Count += other.Count
+	// the merged column is numeric as soon as one side holds numeric values
+	if other.IsNumeric {
+		ss.IsNumeric = true
+	}
 	ss.Records = append(ss.Records, other.Records...)
 	if ss.Hll != nil && other.Hll != nil {
 		err := ss.Hll.StrictUnion(other.Hll.Hll)
